@@ -186,7 +186,7 @@ Definition firsts := Eval vm_compute in map (fun c : list op * list event => fir
         ctx.broken("correspondence:C03.Model", "model and implementation differ on %d histories where the specification is met, e.g. %s" % (len(only_model), json.dumps(hist[only_model[0]])[:600]))
 
     # ---- 3. generated programs: processes x repetitions x goroutines
-    n, k, g = (250, 4, 4) if quick else (6000, 8, 8)
+    n, k, g = (160, 4, 4) if quick else (5000, 8, 8)
     res = ctx.jsonl([hx, "run", "-seed", str(ctx.seed), "-n", str(n), "-k", str(k), "-g", str(g)], timeout=3000)
     summ = [d for d in res if d["kind"] == "summary"][0]
     for d in res:
